@@ -40,16 +40,25 @@ def arange(
         stop=stop,
         step=step,
         arange_dtype=dtype,
+        num=num,
     )
 
 
-def _arange(x, size, start, stop, step, arange_dtype, block_id=None):
+def _arange(x, size, start, stop, step, arange_dtype, num=None, block_id=None):
     i = block_id[0]
     blockstart = start + (i * size * step)
     blockstop = start + ((i + 1) * size * step)
     # the last block ends at stop, which is below blockstop for a positive step and above it for a negative one
     blockstop = min(blockstop, stop) if step > 0 else max(blockstop, stop)
-    return nxp.arange(blockstart, blockstop, step, dtype=arange_dtype)
+    block = nxp.arange(blockstart, blockstop, step, dtype=arange_dtype)
+    if num is not None:
+        # rounding of floating-point block bounds can yield one element too many (or too few)
+        blocksize = min(size, num - i * size)
+        if block.shape[0] != blocksize:
+            block = nxp.astype(
+                blockstart + nxp.arange(blocksize) * step, arange_dtype, copy=False
+            )
+    return block
 
 
 def asarray(
